@@ -73,8 +73,13 @@ class Tracer:
         def uni(xs: list[bool]) -> bool:
             return all(xs) or not any(xs)
 
+        def cur(v: Any) -> int:
+            return int(v(pre.steps)) if callable(v) else int(v)
+
         return {
             'steps': int(pre.steps),
+            'F': cur(pre._factor_update_steps),
+            'I': cur(pre._inv_update_steps),
             'chA': any(chA), 'chG': any(chG),
             'accA': any(new['accA']), 'accG': any(new['accG']),
             'accKnown': bool(new['accKnown']),
@@ -194,6 +199,42 @@ class Tracer:
             return o['_save_grad_output'](pre, module, grad_input,
                                           grad_output)
 
+        # the hyper-parameter scheduler: factor functions are identified by
+        # identity with the harness table (their values are rationals in the
+        # specification); anything else makes the trace unsupported
+        from kfac.scheduler import LambdaParamScheduler as S
+        self._orig_s = {'__init__': S.__init__, 'step': S.step}
+        os_ = self._orig_s
+        rev = {id(f): n for n, f in kaisa.FUNCS.items()}
+        pnames = {'factor_update_steps_lambda': 'factor_update_steps',
+                  'inv_update_steps_lambda': 'inv_update_steps',
+                  'damping_lambda': 'damping',
+                  'factor_decay_lambda': 'factor_decay',
+                  'kl_clip_lambda': 'kl_clip', 'lr_lambda': 'lr'}
+
+        def s_init(sch: Any, preconditioner: Any, **kw: Any) -> None:
+            os_['__init__'](sch, preconditioner, **kw)
+            tr = tracer.traces.get(id(preconditioner))
+            if tr is None:
+                return
+            sched = {}
+            for k, f in kw.items():
+                if f is None:
+                    continue
+                if id(f) not in rev or tr['events'] or tr['cur'] is not None:
+                    tr['unsupported'] = ('scheduler with an unknown factor '
+                                         'function or attached late')
+                else:
+                    sched[pnames[k]] = rev[id(f)]
+            tr['cfg']['sched'] = sched
+
+        def s_step(sch: Any, step: Any = None) -> None:
+            pre = sch._preconditioner
+            return tracer._call(pre, 'sched', -1 if step is None else int(step),
+                                lambda _p: os_['step'](sch, step))
+
+        S.__init__ = s_init
+        S.step = s_step
         B.__init__ = init
         B.step = step
         B.state_dict = state_dict
@@ -210,6 +251,10 @@ class Tracer:
         for n, f in self._orig.items():
             setattr(B, n, f)
         self._orig = {}
+        from kfac.scheduler import LambdaParamScheduler as S
+        for n, f in getattr(self, '_orig_s', {}).items():
+            setattr(S, n, f)
+        self._orig_s = {}
 
     def __enter__(self) -> 'Tracer':
         return self.install()
@@ -258,6 +303,7 @@ class Tracer:
                       'factor_decay': fkind(pre._factor_decay),
                       'kl_clip': fkind(pre._kl_clip), 'lr': fkind(pre._lr)},
             'nlayers': len(pre._layers),
+            'sched': {},
         }
 
     # ---- export -----------------------------------------------------------
@@ -274,6 +320,8 @@ class Tracer:
             prefix: list[dict[str, Any]] = []
             supported = tr['cfg']['nlayers'] > 0
             why = '' if supported else 'no registered layer'
+            if tr.get('unsupported'):
+                supported, why = False, tr['unsupported']
             loads = [i for i, e in enumerate(events) if e['act'] == 'load']
             if loads:
                 if loads != [0] or not tr.get('fresh_at_load') \
